@@ -8,9 +8,9 @@ VARIANTS = ("text", "number-printf", "number-sexa", "switch-OneOfMany", "switch-
 NUMBER_FORMATS = {"number-printf": "%.2f", "number-sexa": "%.6m", "number-sexa3": "%.3m", "number-sexa5": "%.5m", "number-sexa8": "%.8m", "number-sexa9": "%.9m", "number-g": "%g", "number-d": "%d"}
 
 
-def target_vector(variant, enabled=True):
+def target_vector(variant, enabled=True, perm="rw"):
     kind = variant.split("-")[0]
-    v = dict(attr="t", kind=kind, name="TGT", enabled=enabled, label="Target \u00b5m <&>")  # non-ASCII + markup in metadata
+    v = dict(attr="t", kind=kind, name="TGT", enabled=enabled, perm=perm, label="Target \u00b5m <&>")  # non-ASCII + markup in metadata
     if kind == "text":
         v["elements"] = [dict(attr="a", name="A", default="x", label="El A \u2603"), dict(attr="b", name="B", default="y")]
     elif kind == "number":
@@ -35,10 +35,10 @@ def bystander_vector(variant):
     return dict(attr="o", kind="text", name="OTHER", elements=[dict(attr="a", name="A", default="oa"), dict(attr="b", name="B", default="ob")])
 
 
-def device_spec(name, variant, vec_enabled=True, grp_enabled=True, depth=1, ngroups=2):
+def device_spec(name, variant, vec_enabled=True, grp_enabled=True, depth=1, ngroups=2, perm="rw"):
     """target vector in group g1 declared in the DEEPEST base class; bystander in g2 (most derived class);
     optional third group g3 in the middle."""
-    groups = [dict(attr="g1", name="Main \u00e9", enabled=grp_enabled, level=0, vectors=[target_vector(variant, vec_enabled)])]
+    groups = [dict(attr="g1", name="Main \u00e9", enabled=grp_enabled, level=0, vectors=[target_vector(variant, vec_enabled, perm)])]
     if ngroups >= 2:
         groups.append(dict(attr="g2", name="Side", enabled=True, level=depth - 1, vectors=[bystander_vector(variant)]))
     if ngroups >= 3:
@@ -46,10 +46,10 @@ def device_spec(name, variant, vec_enabled=True, grp_enabled=True, depth=1, ngro
     return dict(name=name, groups=groups, depth=depth)
 
 
-def deployment(variant, vec_enabled=True, grp_enabled=True, depth=1, ndev=1, ngroups=2, related=False, nolimits=False, read_refresh=False):
+def deployment(variant, vec_enabled=True, grp_enabled=True, depth=1, ndev=1, ngroups=2, related=False, nolimits=False, read_refresh=False, perm="rw"):
     """device 0 is the device under test; further devices have the SAME vector and element names.
     related=True: device 1's class DERIVES from device 0's class (instantiated after it) and adds a group."""
-    specs = [device_spec("DEV0", variant, vec_enabled, grp_enabled, depth, ngroups)]
+    specs = [device_spec("DEV0", variant, vec_enabled, grp_enabled, depth, ngroups, perm)]
     if nolimits:
         for e in specs[0]["groups"][0]["vectors"][0]["elements"]:
             for k in ("min", "max", "step"):
@@ -79,6 +79,11 @@ def family(tier):
     out.append(dict(variant="number-printf", vec_enabled=True, grp_enabled=True, depth=1, ndev=1, ngroups=2, nolimits=True))
     for variant in ("number-printf", "number-sexa", "text", "switch-AnyOfMany", "light"):
         out.append(dict(variant=variant, vec_enabled=True, grp_enabled=True, depth=2, ndev=2, ngroups=2, read_refresh=True))
+    # write-only and read-only target properties (the permission is metadata a client must see; a write-only property
+    # is as writable as a read-write one)
+    for variant in ("text", "number-printf", "switch-OneOfMany", "blob"):
+        out.append(dict(variant=variant, vec_enabled=True, grp_enabled=True, depth=1, ndev=2, ngroups=2, perm="wo"))
+    out.append(dict(variant="text", vec_enabled=True, grp_enabled=True, depth=2, ndev=1, ngroups=2, perm="ro"))
     # class hierarchies shared between devices: device 1 derives from device 0's class
     for variant in ("text", "number-printf", "switch-OneOfMany", "blob"):
         for depth in (1, 2):
@@ -95,5 +100,5 @@ def family(tier):
                 depth, ndev = combos[(i + k * 2) % 9]
                 q.append(dict(variant=variant, vec_enabled=ve, grp_enabled=ge, depth=depth, ndev=ndev, ngroups=3 if depth == 3 else 2))
             i += 1
-    q += [p for p in out if p.get("related") or p.get("nolimits") or p.get("read_refresh")]
+    q += [p for p in out if p.get("related") or p.get("nolimits") or p.get("read_refresh") or p.get("perm")]
     return q
